@@ -239,7 +239,7 @@ pub fn check(s: &'static dyn Proto, c: &Case, st: &mut Stats, _k: &KnownFindings
     ksf::set_default_spec(KsfSpec::Identity);
     let pw = c.pw.bytes();
     let pw2 = c.mutation.apply(&pw);
-    ensure!(pw2 != pw, "HARNESS-BUG: mutation produced an equal password");
+    assert!(pw2 != pw, "HARNESS-BUG: mutation produced an equal password");
     let cred = c.cred.bytes();
     let ctx = flow::opt(&c.ctx);
     let t = |i: u64| c.tape.sub(i);
